@@ -8,6 +8,7 @@ import (
 	"context"
 	"errors"
 	"fmt"
+	"io"
 	"math/rand"
 	"sort"
 	"strings"
@@ -76,6 +77,8 @@ type rsScenario struct {
 	Always    bool
 	Timeout   bool // ResponseTimeout configured
 	CallerIDs bool // publishes carry caller-provided identifiers
+	CancelCtx bool // the caller cancels the context it gave to Connect once Connect has returned
+	CallerDup bool // the caller's Message structs arrive with Dup already set (a reused struct)
 	CapQoS    int  // 0: the broker grants what was requested; 1,2: it grants min(requested, CapQoS-1) in SUBACK
 	Phases    []rsPhase
 	Faults    []rsFault
@@ -232,9 +235,9 @@ func (b *rsBroker) onWrite(c *memConn, pkt []byte) error {
 			c.send([]byte{0x20, 2, sp, 0})
 		case rsRefused:
 			c.send([]byte{0x20, 2, 0, 5})
-			c.Close()
+			c.cut()
 		case rsClosed:
-			c.Close()
+			c.cut()
 		case rsNoAck:
 		}
 		return nil
@@ -349,7 +352,7 @@ func (b *rsBroker) onWrite(c *memConn, pkt []byte) error {
 	b.sent[k]++
 	if f == fWriteFail {
 		b.wire = append(b.wire, rsWire{k, coq, "WFail", desc + " cut"})
-		c.Close()
+		c.cut()
 		return errCut
 	}
 	res := "WOk"
@@ -359,7 +362,7 @@ func (b *rsBroker) onWrite(c *memConn, pkt []byte) error {
 	b.wire = append(b.wire, rsWire{k, coq, res, desc + " " + rsFaultName[f]})
 	if f == fLostAfter {
 		if b.accepted[k] {
-			c.Close()
+			c.cut()
 		}
 		return nil
 	}
@@ -420,7 +423,7 @@ func (b *rsBroker) onWrite(c *memConn, pkt []byte) error {
 		final = true
 	}
 	if f == fAckLost {
-		c.Close()
+		c.cut()
 		return nil
 	}
 	if f == fSilentAck {
@@ -431,6 +434,11 @@ func (b *rsBroker) onWrite(c *memConn, pkt []byte) error {
 	}
 	if resp != nil {
 		c.send(resp)
+		// zero-delay broker: the client's reader has consumed the acknowledgement before Write returns
+		// (a waiter registered only after the write would miss it)
+		b.mu.Unlock()
+		c.waitReaderIdle(2 * time.Second)
+		b.mu.Lock()
 	}
 	return nil
 }
@@ -475,6 +483,7 @@ func rsRun(sc *rsScenario) rsObs {
 		b.mu.Lock()
 		k := len(b.conns)
 		c := newMemConn(k, b.onWrite)
+		c.localCloseErr = io.ErrClosedPipe // like net.Pipe: a Read after the client's own Close
 		b.conns = append(b.conns, c)
 		b.accepted = append(b.accepted, false)
 		b.sent = append(b.sent, 0)
@@ -516,7 +525,13 @@ func rsRun(sc *rsScenario) rsObs {
 	}
 	ctx, cancel := context.WithCancel(context.Background())
 	defer cancel()
-	go func() { _, _ = cli.Connect(ctx, "cid", mqtt.WithCleanSession(false)) }()
+	connCtx, connCancel := context.WithCancel(context.Background())
+	defer connCancel()
+	connReturned := make(chan struct{})
+	go func() {
+		_, _ = cli.Connect(connCtx, "cid", mqtt.WithCleanSession(false))
+		close(connReturned)
+	}()
 
 	pushed := 0      // tasks pushed by the driver (requests + barriers)
 	loopPushed := 0  // tasks the reconnect loop must have pushed by contract (Retry, Resubscribe)
@@ -558,6 +573,7 @@ func rsRun(sc *rsScenario) rsObs {
 			if sc.CallerIDs && op.QoS > 0 {
 				m.ID = uint16(1000 + op.UID)
 			}
+			m.Dup = sc.CallerDup // a first transmission has DUP=0 whatever the caller's struct says
 			if err := cli.Publish(ctx, m); err != nil {
 				obs.Stuck = "publish rejected: " + err.Error()
 			}
@@ -620,6 +636,17 @@ phases:
 			b.mu.Unlock()
 			b.connectGo <- at.Kind
 			if at.Kind == rsAccept {
+				if sc.CancelCtx && !initialized {
+					// the usual `defer cancel()`: the context given to Connect ends once Connect returned;
+					// the reconnect loop must not depend on it afterwards
+					select {
+					case <-connReturned:
+						connCancel()
+					case <-time.After(rsWait):
+						obs.Stuck = where + ": Connect did not return after the first CONNACK"
+						break phases
+					}
+				}
 				loopPushed++
 				if initialized && (!at.SP || sc.Always) {
 					loopPushed++
@@ -657,7 +684,7 @@ phases:
 			b.mu.Lock()
 			c := b.conns[len(b.conns)-1]
 			b.mu.Unlock()
-			c.Close()
+			c.cut()
 		}
 		if done() {
 			break
@@ -797,6 +824,7 @@ func (sc *rsScenario) describe() map[string]interface{} {
 		fs = append(fs, fmt.Sprintf("conn%d#%d:%s", f.Conn, f.Idx, rsFaultName[f.Kind]))
 	}
 	return map[string]interface{}{"methodB": sc.MethodB, "alwaysResubscribe": sc.Always, "responseTimeout": sc.Timeout,
+		"connectContextCancelledAfterConnect": sc.CancelCtx, "callerStructHasDupSet": sc.CallerDup,
 		"callerIDs": sc.CallerIDs, "brokerGrantsAtMostQoS": sc.CapQoS - 1, "phases": phs, "faults": fs, "note": sc.Note}
 }
 
@@ -832,7 +860,7 @@ type rsGen struct {
 	uid int
 }
 
-var rsTopics = []string{"a", "b", "c/d", "+/x"}
+var rsTopics = []string{"a", "b", "c/d", "+/x", "s/#", "s/d", "s/+"}
 
 func (g *rsGen) pub(qos byte) rsOp {
 	g.uid++
@@ -908,6 +936,8 @@ func (g *rsGen) scenario(w [5]int, silent, keepSession bool) *rsScenario {
 	if r.Intn(3) == 0 {
 		sc.CapQoS = 1 + r.Intn(2) // broker grants at most QoS 0 or 1
 	}
+	sc.CancelCtx = r.Intn(2) == 0
+	sc.CallerDup = r.Intn(4) == 0
 	if silent {
 		sc.Timeout = true
 	} else {
@@ -951,6 +981,9 @@ func (g *rsGen) scenario(w [5]int, silent, keepSession bool) *rsScenario {
 			if silent && r.Intn(2) == 0 {
 				kinds := []int{fSilentReq, fSilentAck}
 				sc.Faults = append(sc.Faults, rsFault{conn, r.Intn(bound), kinds[r.Intn(2)]})
+				if r.Intn(2) == 0 { // a second silent drop on the same connection (same Retry pass)
+					sc.Faults = append(sc.Faults, rsFault{conn, r.Intn(bound), kinds[r.Intn(2)]})
+				}
 			}
 		}
 		pendingBound = bound // everything may still be pending on the next connection
@@ -999,7 +1032,7 @@ func rsEnumerate(w rsWorkload, depth int, methodB, sessLost, always bool, emit f
 	kinds := []int{fWriteFail, fLostAfter, fAckLost}
 	var rec func(d int, faults []rsFault)
 	rec = func(d int, faults []rsFault) {
-		sc := &rsScenario{MethodB: methodB, Always: always, Note: "enumerated " + w.Name}
+		sc := &rsScenario{MethodB: methodB, Always: always, Note: "enumerated " + w.Name, CancelCtx: len(faults)%2 == 1}
 		sc.Phases = append(sc.Phases, rsPhase{Attempts: []rsAttempt{{Kind: rsAccept}}, Ops: w.Ops, IdleCut: len(faults) > 0})
 		for i := range faults {
 			sc.Phases = append(sc.Phases, rsPhase{Attempts: []rsAttempt{{Kind: rsAccept, SP: !sessLost}}, IdleCut: i < len(faults)-1})
@@ -1074,6 +1107,13 @@ func rsCorpus() []*rsScenario {
 		{Attempts: []rsAttempt{acc(true)}, IdleCut: true},
 		{Attempts: []rsAttempt{acc(true)}}},
 		Faults: []rsFault{{0, 0, fAckLost}, {1, 0, fSilentAck}}})
+	// two requests abandoned in one Retry pass: a deferred re-subscription times out, then a retry handle
+	out = append(out, &rsScenario{Note: "two timeouts in one Retry pass: the handle queued by the deferred entry survives", Timeout: true, CancelCtx: true, Phases: []rsPhase{
+		{Attempts: []rsAttempt{acc(false)}, Ops: []rsOp{rsS(1, rsSub{"a", 1}), rsP(2, 1)}},
+		{Attempts: []rsAttempt{acc(false)}},
+		{Attempts: []rsAttempt{acc(true)}},
+		{Attempts: []rsAttempt{acc(true)}}},
+		Faults: []rsFault{{0, 1, fSilentAck}, {1, 0, fSilentAck}, {2, 1, fSilentAck}, {2, 2, fSilentAck}}})
 	// requests before the first connection, refused CONNACK, dial failure, requests during the outage
 	out = append(out, &rsScenario{Note: "before first connection, refused, dial failure, outage requests", MethodB: true, Phases: []rsPhase{
 		{Attempts: []rsAttempt{{Kind: rsDialFail, Mid: []rsOp{rsP(1, 1)}}, {Kind: rsRefused, Mid: []rsOp{rsS(2, rsSub{"a", 1})}}, acc(false, rsP(3, 2))},
